@@ -28,7 +28,7 @@ type c05Reply struct {
 	wire   []byte
 }
 
-func c05Scenario(c *choice.Ctx, rep *report.R, tcp bool, startQid int, nCalls, depth int) {
+func c05Scenario(c *choice.Ctx, rep *report.R, tcp bool, startQid int, nCalls, depth int, oversize int) {
 	own := env.InstallOwn(0xA5, vRace)
 	defer env.UninstallOwn()
 	network := "udp"
@@ -58,7 +58,7 @@ func c05Scenario(c *choice.Ctx, rep *report.R, tcp bool, startQid int, nCalls, d
 
 	fail := func(sig, msg string) {
 		rep.Violate("C05:"+sig, fmt.Sprintf("%s\n  tcp=%v startQid=%d events: %s", msg, tcp, startQid, strings.Join(trace, " ")),
-			map[string]any{"Choices": c.Choices(), "Scenario": fmt.Sprintf("tcp=%v,qid=%d", tcp, startQid)})
+			map[string]any{"Choices": c.Choices(), "Scenario": fmt.Sprintf("tcp=%v,qid=%d,over=%d", tcp, startQid, oversize)})
 	}
 
 	check := func() {
@@ -312,20 +312,23 @@ func TestVerifC05(t *testing.T) {
 	bound := report.ParamInt("FAULTS", 2)
 	nCalls := report.ParamInt("CALLS", 3)
 	rep.Rule = fmt.Sprintf("E3: real PipelineTransport (TCP and UDP framing) over scripted dialer/peer in a synctest bubble; %d exchanges; events {start (in index order), reply to any received frame in any order, duplicate reply, "+
-		"cancel, unsolicited reply, server FIN, reply and FIN in the same instant, stalled write + commit, early reply for the id of a write still in progress + FIN, advance 2s (= every deadline)}; all event orders to depth %d with <=%d fault events (cancel/dup/unsolicited/FIN); id counter start states {0, 65533, 65534, 65535}; "+
+		"cancel, unsolicited reply, server FIN, reply and FIN in the same instant, stalled write + commit, early reply for the id of a write still in progress + FIN, advance 2s (= every deadline)}; all event orders to depth %d with <=%d fault events (cancel/dup/unsolicited/FIN); id counter start states {0, 65533, 65534, 65535}; on UDP also with one exchange whose query exceeds the datagram size (EMSGSIZE on write) among 3-4 exchanges; "+
 		"oracle after every event: returned message was sent by the server for that exchange's own frame, caller id restored, no reply used twice, wire ids distinct per connection, no (nil,nil), ownership audit; "+
 		"distinct = distinct (event sequence => outcomes); states = distinct outcome vectors", nCalls, depth, bound)
 	type cfg struct {
-		tcp bool
-		qid int
+		tcp      bool
+		qid      int
+		oversize int // index of the exchange whose query exceeds the datagram size, -1: none
+		calls    int
 	}
-	cfgs := []cfg{{true, 0}, {false, 0}, {true, 65534}, {true, 65535}, {false, 65533}, {true, 65533}}
+	cfgs := []cfg{{true, 0, -1, nCalls}, {false, 0, -1, nCalls}, {true, 65534, -1, nCalls}, {true, 65535, -1, nCalls}, {false, 65533, -1, nCalls}, {true, 65533, -1, nCalls},
+		{false, 0, 1, nCalls + 1}, {false, 0, 0, nCalls}}
 	if rp := report.ReplayFile(); rp != nil {
 		var x struct{ Scenario string }
 		rp.Decode(&x)
 		for _, cf := range cfgs {
-			if fmt.Sprintf("tcp=%v,qid=%d", cf.tcp, cf.qid) == x.Scenario {
-				runExplore(t, rep, bound, func(c *choice.Ctx) { c05Scenario(c, rep, cf.tcp, cf.qid, nCalls, depth) })
+			if fmt.Sprintf("tcp=%v,qid=%d,over=%d", cf.tcp, cf.qid, cf.oversize) == x.Scenario {
+				runExplore(t, rep, bound, func(c *choice.Ctx) { c05Scenario(c, rep, cf.tcp, cf.qid, cf.calls, depth, cf.oversize) })
 			}
 		}
 		return
@@ -333,8 +336,8 @@ func TestVerifC05(t *testing.T) {
 	bubble(t, func() {
 		for _, cf := range cfgs {
 			cf := cf
-			st := runExplore(t, rep, bound, func(c *choice.Ctx) { c05Scenario(c, rep, cf.tcp, cf.qid, nCalls, depth) })
-			rep.Count(fmt.Sprintf("exec_tcp=%v_qid=%d", cf.tcp, cf.qid), st.Executions)
+			st := runExplore(t, rep, bound, func(c *choice.Ctx) { c05Scenario(c, rep, cf.tcp, cf.qid, cf.calls, depth, cf.oversize) })
+			rep.Count(fmt.Sprintf("exec_tcp=%v_qid=%d_over=%d", cf.tcp, cf.qid, cf.oversize), st.Executions)
 		}
 	})
 	rep.Sample(map[string]any{"events": "start0,start1,reply2(c0,id1),cancel0,reply1(c0,id0),start2,dup1", "outcomes": "err(context canceled),ok(serial 2),inflight"})
